@@ -399,7 +399,8 @@ func largeHas(p, i, n int) bool {
 }
 
 // Large builds one batch of the LARGE family. payload 0: freq 1 no locs; 1: locations on
-// every third posting and a second, rarer term.
+// every third posting and a second, rarer term; 2: every document carries the field twice with
+// the same term (term occurrences = 2 x documents, which straddles other 1024-buckets).
 func Large(n, pattern, payload int) []Doc {
 	batch := make([]Doc, n)
 	for i := 0; i < n; i++ {
@@ -417,6 +418,10 @@ func Large(n, pattern, payload int) []Doc {
 				f = fld("a", t, Term{T: "y", Freq: 2, Locs: []Loc{{P: 1, S: 2, E: 3}}})
 			}
 			doc = append(doc, f)
+			if payload == 2 {
+				// the field a second time with the same term: term occurrences = 2 x documents
+				doc = append(doc, fld("a", Term{T: "x", Freq: 2, Locs: []Loc{{P: i + 1, S: 1, E: 2}}}))
+			}
 		}
 		batch[i] = doc
 	}
